@@ -345,13 +345,12 @@ async fn update_active_blob<K>(inner: &Inner<K>) -> Result<()>
 where
     for<'a> K: Key<'a> + 'static,
 {
+    // The id of the new blob is taken and the blob is installed under one exclusive lock (as in
+    // `try_update_active_blob`): otherwise a blob created by someone else in between gets a greater id but
+    // is closed earlier, and the order of closed blobs no longer matches the order after a restart
+    let mut safe = inner.safe().write().await;
     let new_active = get_new_active_blob(inner).await?;
-    inner
-        .safe()
-        .write()
-        .await
-        .replace_active_blob(new_active)
-        .await?;
+    safe.replace_active_blob(new_active).await?;
     Ok(())
 }
 
